@@ -481,6 +481,8 @@ func checkC09(c *Check) {
 		c.HoldConst("K3c", "no-skip-counter", token.NoPos, true, "")
 	}
 
+	c09PerPartStatus(c)
+
 	// ---- K5: a failure of one atomic target is reported for exactly that target's recipients
 	c.Rule("K5", "pipeline per-recipient body path: when an atomic target's Body fails, the error is reported for that target's complete recipient list and for no other target's recipients", 1)
 	if r := c.In(pipelineRel, "msgpipelineDelivery", "BodyNonAtomic"); r != nil {
@@ -1143,4 +1145,141 @@ func c09Translate(c *Check, pc *provCtx, sites []statusSite) {
 		}
 	}
 	c.Hold("K4", "smtp.statusWrapper.SetStatus", sw.FI.Decl.Pos(), msg == "", msg)
+}
+
+// ---- K11: a BodyNonAtomic that fans out over a table of parts (the remote target's connections, the pipeline's
+// targets) reports each part's outcome for that part's recipients. Inside the loop over the table (goroutines and
+// closures included) a SetStatus whose recipient is an element of a list that does not belong to the loop's part
+// – `for _, rcpt := range rd.recipients` inside `for _, conn := range rd.connections` – files one connection's
+// failure under the recipients of all the others: delivered recipients are retried (duplicates), or their failure is
+// overwritten by another part's success.
+func c09PerPartStatus(c *Check) {
+	c.Rule("K11", "inside a BodyNonAtomic loop over a table of parts (connections, targets) every status is reported for a recipient of that part: the reported address is an element of a list reached through the loop's own variable", 1)
+	p := c.P
+	n := 0
+	for _, pk := range p.ServerPkgs() {
+		p.AllFuncs([]*packagesPkg{pk}, func(fi *FuncInfo) {
+			if refName(fi.Obj) != "BodyNonAtomic" || fi.Decl.Recv == nil || fi.Decl.Body == nil {
+				return
+			}
+			info := fi.Info()
+			ast.Inspect(fi.Decl.Body, func(x ast.Node) bool {
+				outer, ok := x.(*ast.RangeStmt)
+				if !ok || fieldOf(info, outer.X) == nil {
+					return true
+				}
+				var partVars []types.Object
+				for _, e := range []ast.Expr{outer.Key, outer.Value} {
+					if e != nil {
+						if o := objOf(info, e); o != nil {
+							partVars = append(partVars, o)
+						}
+					}
+				}
+				if len(partVars) == 0 {
+					return true
+				}
+				ofPart := func(e ast.Node) bool {
+					for _, o := range partVars {
+						if mentions(info, e, o) {
+							return true
+						}
+					}
+					return false
+				}
+				// locals defined from the part inside the loop body (`rcpts := conn.Rcpts()`) belong to it too
+				for changed := true; changed; {
+					changed = false
+					ast.Inspect(outer.Body, func(y ast.Node) bool {
+						if as, ok := y.(*ast.AssignStmt); ok && len(as.Lhs) == len(as.Rhs) {
+							for i, l := range as.Lhs {
+								o := objOf(info, l)
+								if o == nil || !ofPart(as.Rhs[i]) {
+									continue
+								}
+								dup := false
+								for _, q := range partVars {
+									if q == o {
+										dup = true
+									}
+								}
+								if !dup {
+									partVars = append(partVars, o)
+									changed = true
+								}
+							}
+						}
+						return true
+					})
+				}
+				// inner loops and their element variables
+				elemOfPart := map[types.Object]bool{}
+				elemOther := map[types.Object]*ast.RangeStmt{}
+				ast.Inspect(outer.Body, func(y ast.Node) bool {
+					if in, ok := y.(*ast.RangeStmt); ok {
+						for _, e := range []ast.Expr{in.Key, in.Value} {
+							if e == nil {
+								continue
+							}
+							if o := objOf(info, e); o != nil {
+								if ofPart(in.X) {
+									elemOfPart[o] = true
+								} else {
+									elemOther[o] = in
+								}
+							}
+						}
+					}
+					return true
+				})
+				hasSet := false
+				ast.Inspect(outer.Body, func(y ast.Node) bool {
+					call, ok := y.(*ast.CallExpr)
+					if !ok || methodName(call) != "SetStatus" || len(call.Args) != 2 {
+						return true
+					}
+					hasSet = true
+					o := objOf(info, call.Args[0])
+					if o == nil {
+						return true
+					}
+					if in, foreign := elemOther[o]; foreign && !elemOfPart[o] {
+						// a failure of the whole message – status for everybody, then out of the function – is not a
+						// part's outcome: allowed when the fan-out is not continued afterwards (decided on the flow graph
+						// of the function; inside a goroutine or closure started per part a return only ends that part)
+						inLit := false
+						ast.Inspect(outer.Body, func(z ast.Node) bool {
+							if fl, ok := z.(*ast.FuncLit); ok && within(fl.Body, call) {
+								inLit = true
+							}
+							return true
+						})
+						if !inLit {
+							fl := p.FlowOfFunc(fi)
+							if pt, ok := fl.PtOfNode(call); ok {
+								again := func(q Pt) bool {
+									return q.I == 0 && q.B.Kind == kindRangeLoop && q.B.Stmt == ast.Stmt(outer)
+								}
+								if _, cont := fl.Reach(Query{From: []Pt{pt}, Target: again, NoCorr: true}); !cont {
+									return true
+								}
+							}
+						}
+						n++
+						c.Hold("K11", fi.Pkg.Types.Name()+"."+recvTypeName(fi.Decl)+".BodyNonAtomic:"+exprStr(outer.X)+":foreign-list", call.Pos(), false, "inside the loop over "+exprStr(outer.X)+" a status is reported for every element of "+exprStr(in.X)+", a list that does not belong to the part being processed: one part's outcome is filed under the recipients of all the others (a recipient whose server accepted the message is marked failed and retried – a duplicate – or its failure is overwritten)")
+					}
+					return true
+				})
+				if hasSet {
+					n++
+					c.SawFunc(fi.Name())
+					c.HoldConst("K11", fi.Pkg.Types.Name()+"."+recvTypeName(fi.Decl)+".BodyNonAtomic:"+exprStr(outer.X), outer.Pos(), true, "")
+				}
+				return true
+			})
+		})
+	}
+	if n == 0 {
+		c.Fail("K11", "fan-out", token.NoPos, "undecided: no BodyNonAtomic loops over a table of parts and reports statuses inside it")
+	}
 }
